@@ -58,12 +58,12 @@ func propC08(c *Ctx) propInfo {
 		}
 	}
 	depth := 2
-	pk := map[string]bool{"tlb": true, "tl": true, "liteclient": true, "code": true}
+	pk := map[string]bool{"tlb": true, "tl": true, "liteclient": true, "code": true, "boc": true}
 	if c.Tier == "thorough" {
 		depth = 3
 	}
 	trav := map[string]bool{"tlb": true, "tl": true, "liteclient": true, "code": true, "boc": true, "ton": true, "utils": true, "wallet": true, "tep64": true}
-	c.panicFree(e1cfg{roots: roots, pkgs: pk, traverse: trav, maxDepth: depth, exc: excC08, excP5: excC08P5})
+	c.panicFree(e1cfg{roots: roots, pkgs: pk, traverse: trav, maxDepth: depth, exc: mergeExc(excC07, excC08), excP5: mergeExc(excC07P5, excC08P5)})
 	trav2 := map[string]bool{"liteapi": true, "tlb": true, "tl": true, "boc": true, "ton": true, "utils": true, "code": true}
 	c.panicFree(e1cfg{roots: apiRoots, pkgs: map[string]bool{"liteapi": true}, traverse: trav2, maxDepth: depth, exc: excC08, excP5: excC08P5})
 	c.errflow(excE2, "tlb", "tl", "code", "boc")
@@ -82,6 +82,21 @@ func propC08(c *Ctx) propInfo {
 var parallelInv = "Hashmap keeps keys and values as parallel slices: every append to one is paired with an append to the other (C05 parallel-slice rule), so Keys(), Values() and Items() have equal length"
 
 var excC08 = map[string]excEntry{
+	// ---- the cell/bit-string read primitives the decoders stand on (package boc is reported under C08 as well)
+	"(*boc.Cell).CopyRemaining P1 panic _":                                                    {"unreachable: NextRef is called RefsAvailableForRead() times, which counts the non-nil references from the cursor on, so it cannot fail", nil},
+	"(*boc.Cell).CopyRemaining P1 panic _#2":                                                  {"unreachable: at most 4 references of an existing cell are added to a fresh cell", nil},
+	"boc.NewCellWithBits P1 panic _":                                                          {"the argument is a bit string read from a cell (CopyRemaining) or a dictionary key of the declared key width; both are <= 1023 bits", nil},
+	"(*boc.BitString).ReadBits P2 index *&bitString.buf[(len(_)-1)]":                          {"reached only for n%8 != 0, so n >= 1 and NewBitString(n) allocated ceil(n/8) >= 1 bytes (buffer-sizing rule)", nil},
+	"(*boc.BitString).ReadBits P2 index *&bitString.buf[(len(_)-1)]#2":                        {"same element, read-modify-write", nil},
+	"(*boc.BitString).ReadBits P2 slice *s.buf[(*s.rCursor/8):((_/8)+len(_))]":                {"aligned cursor and n <= len - rCursor (availability guard): rCursor/8 + ceil(n/8) <= ceil(len/8) <= len(buf) by " + bsInv, []guardRef{{"boc:BitString.ReadBits", "(boc.BitString.BitsAvailableForRead()<n)"}}},
+	"(*boc.BitString).ReadByte P2 index *s.buf[(*s.rCursor>>3)]":                              {"8 bits available from an aligned cursor (availability guard) and " + bsInv, []guardRef{{"boc:BitString.ReadByte", "(boc.BitString.BitsAvailableForRead()<8)"}}},
+	"(*boc.BitString).ReadByte P2 slice *s.buf[(*s.rCursor>>3):((_>>3)+2)]":                   {"8 bits available from an unaligned cursor span two bytes, both below ceil(len/8) (availability guard) and " + bsInv, []guardRef{{"boc:BitString.ReadByte", "(boc.BitString.BitsAvailableForRead()<8)"}}},
+	"(*boc.BitString).ReadBytes P2 slice *s.buf[(*s.rCursor/8):((_/8)+size)]":                 {"aligned cursor and 8*size bits available (availability guard) and " + bsInv + "; size >= 0 at every in-module call site (a constant, a length read with a bounded width, or len of a slice)", []guardRef{{"boc:BitString.ReadBytes", "(boc.BitString.BitsAvailableForRead()<(size*8))"}}},
+	"(*boc.BitString).ReadBytes P4 make []byte len=size cap=size":                             {"8*size <= available bits <= 1023 (availability guard); size >= 0 at every in-module call site", []guardRef{{"boc:BitString.ReadBytes", "(boc.BitString.BitsAvailableForRead()<(size*8))"}}},
+	"(*boc.BitString).ReadUint P2 slice &buf[(8-(bitLen>>3)):]":                               {"0 <= bitLen <= 64 (width guard; widths are constants or struct-tag values at every in-module call site), so 0 <= 8-bitLen/8 <= 8", []guardRef{{"boc:BitString.ReadUint", "(bitLen>64)"}}},
+	"(*boc.BitString).ReadUint P2 slice *s.buf[(*s.rCursor>>3):((_>>3)+(bitLen>>3))]":         {"aligned cursor, bitLen bits available (availability guard) and " + bsInv, []guardRef{{"boc:BitString.ReadUint", "(boc.BitString.BitsAvailableForRead()<bitLen)"}}},
+	"(*boc.BitString).ReadUint P2 slice *s.buf[(*s.rCursor/8):]":                              {"rCursor <= len <= 8*len(buf) by " + bsInv + ", so rCursor/8 <= len(buf)", nil},
+	"boc.minBitsRequired P2 index tab64[((_*571347909858961602)>>58)]":                        {"a uint64 shifted right by 58 is < 64 = len(tab64)", nil},
 	"liteclient.decodeLength P1 panic _":                                                      {"unreachable: the preceding returns cover b[0] < 254 and b[0] == 255, so b[0] == 254 here (byte arithmetic, not input dependent)", nil},
 	"(tlb.Hashmap[keyT, T]).Items P2 index *&h.values[(φrangeindex+1)]":                       {parallelInv, nil},
 	"(*liteapi.Client).GetAllShardsInfo P2 index tlb.HashmapE.Keys()[(φrangeindex+1)]":        {parallelInv, nil},
